@@ -184,4 +184,476 @@ theorem backendReadableAfter_close (p : Pipe) (n : Nat) (r : SR)
       · next h2 => rw [if_pos h2, key]; exact (check_false_drained p4 hp4f (by simpa using h2)).1
       · cases hc
 
+
+/-! ## session level -/
+
+/-! ### what each handler does to the two "read" histories -/
+
+theorem readable_readF (p : Pipe) (g : Bytes) (r : SR) :
+    (p.readable g r).1.readF = if p.fbuf.space = 0 then p.readF else p.readF ++ g.take p.fbuf.space := by
+  unfold Pipe.readable
+  simp only [Pipe.resetForClose]
+  repeat' split
+  all_goals simp_all
+
+theorem readable_readB (p : Pipe) (g : Bytes) (r : SR) : (p.readable g r).1.readB = p.readB := by
+  unfold Pipe.readable
+  simp only [Pipe.resetForClose]
+  repeat' split
+  all_goals simp_all
+
+theorem backendReadableAfter_reads (p : Pipe) (n : Nat) (r : SR) :
+    (p.backendReadableAfter n r).1.readB = p.readB ∧ (p.backendReadableAfter n r).1.readF = p.readF := by
+  unfold Pipe.backendReadableAfter
+  simp only [Pipe.resetForClose]
+  repeat' split
+  all_goals exact ⟨rfl, rfl⟩
+
+theorem backendReadable_readB (p : Pipe) (g : Bytes) (r : SR) :
+    (p.backendReadable g r).1.readB =
+      if p.bbuf.space = 0 ∨ p.hasBackend = false then p.readB else p.readB ++ g.take p.bbuf.space := by
+  unfold Pipe.backendReadable
+  by_cases h1 : p.bbuf.space = 0
+  · simp [h1]
+  · by_cases h2 : p.hasBackend = true
+    · simp only [h1, h2, not_true_eq_false, ↓reduceIte, Bool.true_eq_false, or_self]
+      rw [(backendReadableAfter_reads _ _ _).1]
+    · simp [h1, h2]
+
+theorem backendReadable_readF (p : Pipe) (g : Bytes) (r : SR) : (p.backendReadable g r).1.readF = p.readF := by
+  unfold Pipe.backendReadable
+  split
+  · rfl
+  · split
+    · rfl
+    · rw [(backendReadableAfter_reads _ _ _).2]
+
+/-- the handler leaves both read histories alone -/
+def SameReads (p q : Pipe) : Prop := q.readF = p.readF ∧ q.readB = p.readB
+
+theorem SameReads.trans {p q r : Pipe} (h1 : SameReads p q) (h2 : SameReads q r) : SameReads p r :=
+  ⟨h2.1.trans h1.1, h2.2.trans h1.2⟩
+
+theorem sameReads_writeFrontOnce (p : Pipe) (n : Nat) (r : SR) : SameReads p (p.writeFrontOnce n r) := by
+  unfold Pipe.writeFrontOnce; simp only; split <;> exact ⟨rfl, rfl⟩
+
+theorem sameReads_writeBackOnce (p : Pipe) (n : Nat) (r : SR) : SameReads p (p.writeBackOnce n r) := by
+  unfold Pipe.writeBackOnce; simp only; split <;> exact ⟨rfl, rfl⟩
+
+theorem sameReads_writableAfter (p : Pipe) (t : Nat) (r : SR) : SameReads p (p.writableAfter t r).1 := by
+  unfold Pipe.writableAfter; simp only [Pipe.resetForClose]
+  repeat' split
+  all_goals exact ⟨rfl, rfl⟩
+
+theorem sameReads_backWritableAfter (p : Pipe) (r : SR) : SameReads p (p.backWritableAfter r).1 := by
+  unfold Pipe.backWritableAfter; simp only [Pipe.resetForClose]
+  repeat' split
+  all_goals exact ⟨rfl, rfl⟩
+
+theorem sameReads_writableLoop : ∀ (s : List (Nat × SR)) (p : Pipe) (sz : Nat), SameReads p (p.writableLoop sz s).1 := by
+  intro s
+  induction s with
+  | nil =>
+    intro p sz
+    unfold Pipe.writableLoop
+    split
+    · exact ⟨rfl, rfl⟩
+    · simp only
+      split
+      · exact sameReads_writeFrontOnce p 0 .wouldBlock
+      · exact (sameReads_writeFrontOnce p 0 .wouldBlock).trans (sameReads_writableAfter _ _ _)
+  | cons x t ih =>
+    intro p sz
+    obtain ⟨n0, res⟩ := x
+    unfold Pipe.writableLoop
+    split
+    · exact ⟨rfl, rfl⟩
+    · simp only
+      split
+      · exact sameReads_writeFrontOnce p n0 res
+      · split
+        · exact (sameReads_writeFrontOnce p n0 res).trans (ih _ _)
+        · exact (sameReads_writeFrontOnce p n0 res).trans (sameReads_writableAfter _ _ _)
+
+theorem sameReads_backWritableLoop : ∀ (s : List (Nat × SR)) (p : Pipe), SameReads p (p.backWritableLoop s).1 := by
+  intro s
+  induction s with
+  | nil =>
+    intro p
+    unfold Pipe.backWritableLoop
+    split
+    · exact ⟨rfl, rfl⟩
+    · exact (sameReads_writeBackOnce p 0 .wouldBlock).trans (sameReads_backWritableAfter _ _)
+  | cons x t ih =>
+    intro p
+    obtain ⟨n0, res⟩ := x
+    unfold Pipe.backWritableLoop
+    split
+    · exact ⟨rfl, rfl⟩
+    · simp only
+      split
+      · exact (sameReads_writeBackOnce p n0 res).trans (ih _)
+      · exact (sameReads_writeBackOnce p n0 res).trans (sameReads_backWritableAfter _ _)
+
+theorem sameReads_backendWritable (p : Pipe) (s : List (Nat × SR)) : SameReads p (p.backendWritable s).1 := by
+  unfold Pipe.backendWritable; simp only [Pipe.resetForClose]
+  repeat' split
+  any_goals exact ⟨rfl, rfl⟩
+  exact sameReads_backWritableLoop s p
+
+theorem sameReads_backendHup (p : Pipe) : SameReads p p.backendHup.1 := by
+  unfold Pipe.backendHup; simp only
+  repeat' split
+  all_goals exact ⟨rfl, rfl⟩
+
+/-! ### the session level: kernel queues + pipe -/
+
+/-- everything each peer has sent so far and sozu has not lost track of:
+    read history followed by what still waits in the kernel -/
+def Sess.streamC (s : Sess) : Bytes := s.p.readF ++ s.k.cIn
+def Sess.streamB (s : Sess) : Bytes := s.p.readB ++ s.k.bIn
+
+/-- a step of the session that neither receives nor invents bytes -/
+def Keeps (f : Sess → Sess × Res) : Prop :=
+  ∀ s, Fifo s.p → (Fifo (f s).1.p ∧ (f s).1.streamC = s.streamC ∧ (f s).1.streamB = s.streamB)
+
+theorem take_drop_take (l : Bytes) (n : Nat) : l.take n ++ l.drop (l.take n).length = l := by
+  rw [List.length_take]
+  by_cases h : n ≤ l.length
+  · rw [Nat.min_eq_left h, List.take_append_drop]
+  · rw [Nat.min_eq_right (by omega), List.take_of_length_le (by omega), List.drop_of_length_le (Nat.le_refl _)]
+    simp
+
+theorem keeps_doReadable : Keeps Sess.doReadable := by
+  intro s hf
+  unfold Sess.doReadable kernelRead
+  simp only
+  refine ⟨fifo_readable _ _ _ hf, ?_, ?_⟩
+  · unfold Sess.streamC
+    simp only
+    rw [readable_readF]
+    by_cases h : s.p.fbuf.space = 0
+    · simp [h]
+    · simp only [h, ↓reduceIte, List.take_take, Nat.min_self, List.append_assoc]
+      rw [take_drop_take]
+  · unfold Sess.streamB; simp only; rw [readable_readB]
+
+theorem keeps_doBackReadable : Keeps Sess.doBackReadable := by
+  intro s hf
+  unfold Sess.doBackReadable kernelRead
+  simp only
+  refine ⟨fifo_backendReadable _ _ _ hf, ?_, ?_⟩
+  · unfold Sess.streamC; simp only; rw [backendReadable_readF]
+  · unfold Sess.streamB
+    simp only
+    rw [backendReadable_readB]
+    by_cases h : s.p.bbuf.space = 0 ∨ s.p.hasBackend = false
+    · have h' : s.p.bbuf.space = 0 ∨ ¬ s.p.hasBackend = true := by simpa using h
+      simp [h, h']
+    · have h' : ¬ (s.p.bbuf.space = 0 ∨ ¬ s.p.hasBackend = true) := by simpa using h
+      simp only [h, h', ↓reduceIte, List.take_take, Nat.min_self, List.append_assoc]
+      rw [take_drop_take]
+
+theorem keeps_doBackWritable : Keeps Sess.doBackWritable := by
+  intro s hf
+  unfold Sess.doBackWritable kernelWrite
+  simp only
+  have sr := sameReads_backendWritable s.p
+  refine ⟨fifo_backendWritable _ _ hf, ?_, ?_⟩
+  · unfold Sess.streamC; split <;> simp only <;> rw [(sr _).1]
+  · unfold Sess.streamB; split <;> simp only <;> rw [(sr _).2]
+
+theorem keeps_doWritable : Keeps Sess.doWritable := by
+  intro s hf
+  unfold Sess.doWritable kernelWrite Pipe.writable
+  simp only
+  have sr := fun sc => sameReads_writableLoop sc s.p 0
+  refine ⟨?_, ?_, ?_⟩
+  · split <;> exact fifo_writableLoop _ _ _ hf
+  · unfold Sess.streamC; split <;> simp only <;> rw [(sr _).1]
+  · unfold Sess.streamB; split <;> simp only <;> rw [(sr _).2]
+
+/-- the session state `x` still accounts for exactly the bytes `s0` accounted for -/
+def Acc (s0 : Sess) (x : Sess × Res) : Prop :=
+  Fifo x.1.p ∧ x.1.streamC = s0.streamC ∧ x.1.streamB = s0.streamB
+
+theorem acc_step (s0 : Sess) (c : Bool) (f : Sess → Sess × Res) (hk : Keeps f) (x : Sess × Res)
+    (hx : Acc s0 x) : Acc s0 (Sess.stepIf c f x) := by
+  unfold Sess.stepIf
+  split
+  · exact hx
+  · obtain ⟨h1, h2, h3⟩ := hk x.1 hx.1
+    exact ⟨h1, h2.trans hx.2.1, h3.trans hx.2.2⟩
+
+theorem keeps_hup : Keeps Sess.hupStep := by
+  intro s hf
+  have sr := sameReads_backendHup s.p
+  refine ⟨fifo_backendHup _ hf, ?_, ?_⟩
+  · simp only [Sess.hupStep, Sess.streamC]; rw [sr.1]
+  · simp only [Sess.hupStep, Sess.streamB]; rw [sr.2]
+
+theorem keeps_clear : Keeps Sess.frontErrStep := by
+  intro s hf
+  exact ⟨fifo_of_eq hf rfl rfl rfl rfl rfl rfl, rfl, rfl⟩
+
+theorem keeps_hupErr : Keeps Sess.backErrStep := by
+  intro s hf
+  have sr := sameReads_backendHup s.p
+  have hf' := fifo_backendHup _ hf
+  unfold Sess.backErrStep
+  simp only
+  split
+  · refine ⟨fifo_of_eq hf' rfl rfl rfl rfl rfl rfl, ?_, ?_⟩
+    · simp only [Sess.streamC, Pipe.clearInterest]; rw [sr.1]
+    · simp only [Sess.streamB, Pipe.clearInterest]; rw [sr.2]
+  · refine ⟨hf', ?_, ?_⟩
+    · simp only [Sess.streamC]; rw [sr.1]
+    · simp only [Sess.streamB]; rw [sr.2]
+
+theorem acc_turnBody (s : Sess) (hf : Fifo s.p) : Acc s s.turnBody := by
+  unfold Sess.turnBody
+  have a0 : Acc s (s, Res.cont) := ⟨hf, rfl, rfl⟩
+  exact acc_step s _ _ keeps_hupErr _ (acc_step s _ _ keeps_clear _ (acc_step s _ _ keeps_hup _
+    (acc_step s _ _ keeps_doWritable _ (acc_step s _ _ keeps_doBackReadable _
+      (acc_step s _ _ keeps_doBackWritable _ (acc_step s _ _ keeps_doReadable _ a0))))))
+
+theorem acc_turn (s : Sess) (hf : Fifo s.p) : ∀ x, s.turn = some x → Acc s x := by
+  intro x hx
+  unfold Sess.turn at hx
+  dsimp only at hx
+  split at hx
+  · cases hx
+  · split at hx
+    · cases hx
+    · cases hx; exact acc_turnBody s hf
+
+theorem acc_loop : ∀ (fuel : Nat) (s : Sess), Fifo s.p → Acc s (Sess.loop fuel s) := by
+  intro fuel
+  induction fuel with
+  | zero => intro s hf; exact ⟨hf, rfl, rfl⟩
+  | succ n ih =>
+    intro s hf
+    unfold Sess.loop
+    cases ht : s.turn with
+    | none => exact ⟨hf, rfl, rfl⟩
+    | some x =>
+      obtain ⟨s', r⟩ := x
+      have a := acc_turn s hf _ ht
+      simp only
+      split
+      · exact a
+      · have b := ih s' a.1
+        exact ⟨b.1, b.2.1.trans a.2.1, b.2.2.trans a.2.2⟩
+
+theorem acc_ready (s : Sess) (hf : Fifo s.p) : Acc s s.ready := by
+  unfold Sess.ready
+  split
+  · exact ⟨fifo_of_eq hf rfl rfl rfl rfl rfl rfl, rfl, rfl⟩
+  · exact acc_loop _ s hf
+
+theorem sentC_append : ∀ (a b : List Ev), sentC (a ++ b) = sentC a ++ sentC b := by
+  intro a b; induction a with
+  | nil => rfl
+  | cons e t iha => cases e <;> simp [sentC, iha]
+
+theorem sentB_append : ∀ (a b : List Ev), sentB (a ++ b) = sentB a ++ sentB b := by
+  intro a b; induction a with
+  | nil => rfl
+  | cons e t iha => cases e <;> simp [sentB, iha]
+
+theorem apply_streams : ∀ (evs : List Ev) (s : Sess), Fifo s.p →
+    Fifo (evs.foldl Sess.apply s).p ∧
+    (evs.foldl Sess.apply s).streamC = s.streamC ++ sentC evs ∧
+    (evs.foldl Sess.apply s).streamB = s.streamB ++ sentB evs := by
+  intro evs
+  induction evs with
+  | nil => intro s hf; simp [sentC, sentB, hf]
+  | cons e t ih =>
+    intro s hf
+    simp only [List.foldl_cons]
+    have hf' : Fifo (s.apply e).p := by
+      cases e <;> exact fifo_of_eq hf rfl rfl rfl rfl rfl rfl
+    obtain ⟨h1, h2, h3⟩ := ih (s.apply e) hf'
+    refine ⟨h1, ?_, ?_⟩
+    · rw [h2]; cases e <;> simp [Sess.apply, Sess.streamC, sentC]
+    · rw [h3]; cases e <;> simp [Sess.apply, Sess.streamB, sentB]
+
+/-- over a whole schedule of wake-ups: the bytes accounted for are the initial ones plus
+    what the peers sent in the wake-ups that were processed (all of them unless the session ended) -/
+theorem runWakes_streams : ∀ (wakes : List (List Ev)) (s : Sess), Fifo s.p →
+    ∃ n, n ≤ wakes.length ∧
+      Fifo (s.runWakes wakes).1.p ∧
+      (s.runWakes wakes).1.streamC = s.streamC ++ sentC (wakes.take n).flatten ∧
+      (s.runWakes wakes).1.streamB = s.streamB ++ sentB (wakes.take n).flatten ∧
+      ((s.runWakes wakes).2 = .cont → n = wakes.length) := by
+  intro wakes
+  induction wakes with
+  | nil => intro s hf; exact ⟨0, Nat.le_refl _, hf, by simp [Sess.runWakes, sentC], by simp [Sess.runWakes, sentB], fun _ => rfl⟩
+  | cons evs rest ih =>
+    intro s hf
+    unfold Sess.runWakes
+    obtain ⟨a1, a2, a3⟩ := apply_streams evs s hf
+    have ar := acc_ready _ a1
+    rcases hx : (evs.foldl Sess.apply s).ready with ⟨s', r⟩
+    rw [hx] at ar
+    have hC : s'.streamC = s.streamC ++ sentC evs := ar.2.1.trans a2
+    have hB : s'.streamB = s.streamB ++ sentB evs := ar.2.2.trans a3
+    have sentC_app : ∀ (a b : List Ev), sentC (a ++ b) = sentC a ++ sentC b := by
+      intro a b; induction a with
+      | nil => rfl
+      | cons e t iha => cases e <;> simp [sentC, iha]
+    have sentB_app : ∀ (a b : List Ev), sentB (a ++ b) = sentB a ++ sentB b := by
+      intro a b; induction a with
+      | nil => rfl
+      | cons e t iha => cases e <;> simp [sentB, iha]
+    cases r with
+    | cont =>
+      simp only
+      obtain ⟨n, hn, h1, h2, h3, h4⟩ := ih s' ar.1
+      refine ⟨n + 1, by simp; omega, h1, ?_, ?_, ?_⟩
+      · rw [h2, hC]; simp [sentC_app]
+      · rw [h3, hB]; simp [sentB_app]
+      · intro hc; have := h4 hc; simp; omega
+    | close => exact ⟨1, by simp, ar.1, by simp [hC], by simp [hB], fun h => by cases h⟩
+    | upgrade => exact ⟨1, by simp, ar.1, by simp [hC], by simp [hB], fun h => by cases h⟩
+    | loopCap => exact ⟨1, by simp, ar.1, by simp [hC], by simp [hB], fun h => by cases h⟩
+    | spin => exact ⟨1, by simp, ar.1, by simp [hC], by simp [hB], fun h => by cases h⟩
+
+/-! ## timers -/
+
+theorem timers_act_armed (t : Timers) (last now : Nat) (a : TAct) (h : t.ArmedAt last) :
+    (t.act now a).ArmedAt (if a = .writeOnly then last else now) ∧
+    (t.act now a).frontDur = t.frontDur ∧ (t.act now a).backDur = t.backDur := by
+  cases a <;> simp [Timers.act, Timers.ArmedAt] at h ⊢ <;> exact h
+
+theorem timers_paced_never_fire : ∀ (tl : List (Nat × TAct)) (t : Timers) (last : Nat),
+    t.ArmedAt last → paced (min t.frontDur t.backDur) last tl → t.run tl = none := by
+  intro tl
+  induction tl with
+  | nil => intro t last _ _; rfl
+  | cons x rest ih =>
+    intro t last ha hp
+    obtain ⟨now, a⟩ := x
+    obtain ⟨h1, h2⟩ := hp
+    unfold Timers.run
+    have hf : t.fires now = false := by
+      unfold Timers.fires
+      rw [ha.1, ha.2]
+      simp only [Bool.or_eq_false_iff, decide_eq_false_iff_not]
+      omega
+    rw [hf]
+    simp only [Bool.false_eq_true, ↓reduceIte]
+    obtain ⟨a1, a2, a3⟩ := timers_act_armed t last now a ha
+    apply ih _ _ a1
+    rw [a2, a3]; exact h2
+
+theorem timers_not_early : ∀ (tl : List (Nat × TAct)) (t : Timers) (last T : Nat),
+    t.ArmedAt last → t.run tl = some T →
+    ∃ l, T = l + min t.frontDur t.backDur ∧ (l = last ∨ ∃ a, a ≠ TAct.writeOnly ∧ (l, a) ∈ tl) := by
+  intro tl
+  induction tl with
+  | nil => intro t last T _ h; cases h
+  | cons x rest ih =>
+    intro t last T ha h
+    obtain ⟨now, a⟩ := x
+    unfold Timers.run at h
+    split at h
+    · cases h
+      refine ⟨last, ?_, Or.inl rfl⟩
+      rw [ha.1, ha.2]; omega
+    · obtain ⟨a1, a2, a3⟩ := timers_act_armed t last now a ha
+      obtain ⟨l, h1, h2⟩ := ih _ _ T a1 h
+      rw [a2, a3] at h1
+      refine ⟨l, h1, ?_⟩
+      rcases h2 with h2 | ⟨b, hb, hm⟩
+      · by_cases hw : a = .writeOnly
+        · left; simpa [hw] using h2
+        · right; exact ⟨a, hw, by simp [hw] at h2; rw [h2]; exact List.mem_cons_self⟩
+      · right; exact ⟨b, hb, List.mem_cons_of_mem _ hm⟩
+
+/-! ## histories -/
+
+theorem run_cons (p : Pipe) (o : Op) (t : List Op) :
+    p.run (o :: t) = if (p.step o).2 = .cont then (p.step o).1.run t else p.step o := by
+  rw [Pipe.run]
+  rcases p.step o with ⟨p', r⟩
+  cases r <;> rfl
+
+theorem run_snoc : ∀ (ops : List Op) (p : Pipe) (op : Op),
+    p.run (ops ++ [op]) = if (p.run ops).2 = .cont then (p.run ops).1.step op else p.run ops := by
+  intro ops
+  induction ops with
+  | nil =>
+    intro p op
+    rw [List.nil_append, run_cons]
+    simp only [Pipe.run]
+    split
+    · next h => simp only [↓reduceIte]; rcases hx : p.step op with ⟨p', r⟩; rw [hx] at h; simp only at h; rw [h]
+    · simp
+  | cons o t ih =>
+    intro p op
+    rw [List.cons_append, run_cons, run_cons]
+    split
+    · exact ih _ _
+    · next h => simp [h]
+
+/-- prefix bookkeeping of a whole wake-up schedule: what the backend (client) got is a prefix
+    of what the client (backend) had sent, and all of it when that direction is drained -/
+theorem runWakes_exact (wakes : List (List Ev)) (s : Sess) (hf : Fifo s.p) :
+    (s.runWakes wakes).1.p.wroteB <+: s.p.wroteB ++ s.p.fbuf.data ++ s.k.cIn ++ sentC wakes.flatten ∧
+    (s.runWakes wakes).1.p.wroteF <+: s.p.wroteF ++ s.p.bbuf.data ++ s.k.bIn ++ sentB wakes.flatten ∧
+    ((s.runWakes wakes).2 = .cont → (s.runWakes wakes).1.p.fbuf.data = [] → (s.runWakes wakes).1.k.cIn = [] →
+      (s.runWakes wakes).1.p.wroteB = s.p.wroteB ++ s.p.fbuf.data ++ s.k.cIn ++ sentC wakes.flatten) ∧
+    ((s.runWakes wakes).2 = .cont → (s.runWakes wakes).1.p.bbuf.data = [] → (s.runWakes wakes).1.k.bIn = [] →
+      (s.runWakes wakes).1.p.wroteF = s.p.wroteF ++ s.p.bbuf.data ++ s.k.bIn ++ sentB wakes.flatten) := by
+  obtain ⟨n, hn, hfifo, hC, hB, hall⟩ := runWakes_streams wakes s hf
+  obtain ⟨f1, f2⟩ := hfifo
+  obtain ⟨g1, g2⟩ := hf
+  have split : wakes.flatten = (wakes.take n).flatten ++ (wakes.drop n).flatten := by
+    rw [← List.flatten_append, List.take_append_drop]
+  simp only [Sess.streamC, Sess.streamB] at hC hB
+  rw [f1, g1] at hC
+  rw [f2, g2] at hB
+  refine ⟨?_, ?_, ?_, ?_⟩
+  · refine ⟨(s.runWakes wakes).1.p.fbuf.data ++ (s.runWakes wakes).1.k.cIn ++ sentC (wakes.drop n).flatten, ?_⟩
+    rw [split, sentC_append]
+    have := congrArg (· ++ sentC (wakes.drop n).flatten) hC
+    simpa [List.append_assoc] using this
+  · refine ⟨(s.runWakes wakes).1.p.bbuf.data ++ (s.runWakes wakes).1.k.bIn ++ sentB (wakes.drop n).flatten, ?_⟩
+    rw [split, sentB_append]
+    have := congrArg (· ++ sentB (wakes.drop n).flatten) hB
+    simpa [List.append_assoc] using this
+  · intro hc e1 e2
+    have := hall hc
+    subst this
+    rw [List.take_length, e1, e2] at hC
+    simpa using hC
+  · intro hc e1 e2
+    have := hall hc
+    subst this
+    rw [List.take_length, e1, e2] at hB
+    simpa using hB
+theorem send_session_exact_all (peer loc : SockAddr) (wss : List (List WRes)) (cap : Nat)
+    (wakes : List (List Ev)) :
+    ((sendSession peer loc wss cap wakes).1.length < (encode (Header.new .proxy peer loc)).length ∧
+      (sendSession peer loc wss cap wakes).1 <+: encode (Header.new .proxy peer loc)) ∨
+    (∃ pre, (sendSession peer loc wss cap wakes).1 = encode (Header.new .proxy peer loc) ++ pre ∧
+      pre <+: sentC wakes.flatten) := by
+  obtain ⟨h1, h2, h3, h4, h5⟩ := send_exactly_once_all peer loc wss
+  unfold sendSession
+  rcases hx : (Send.new peer loc).run wss with ⟨s', r, out⟩
+  rw [hx] at h1 h3 h4
+  simp only at h1 h3 h4
+  cases r with
+  | upgrade =>
+    right
+    refine ⟨_, ?_, (runWakes_exact wakes { p := Pipe.new cap } (fifo_new cap true)).1⟩
+    simp only
+    rw [h3 rfl]
+  | cont => left; exact ⟨h4 (by simp), by rw [h1]; exact List.take_prefix _ _⟩
+  | close => left; exact ⟨h4 (by simp), by rw [h1]; exact List.take_prefix _ _⟩
+  | loopCap => left; exact ⟨h4 (by simp), by rw [h1]; exact List.take_prefix _ _⟩
+  | spin => left; exact ⟨h4 (by simp), by rw [h1]; exact List.take_prefix _ _⟩
+
+
 end Sozu.Pipe
